@@ -880,6 +880,22 @@ class Gen:
             return [{"k": "router_new", "r": rid, "name": "c11bad%d" % rid, "bare": "approve"}] + \
                    [{"k": "router_method", "r": rid, "h": hh, "sub": rr} for hh, rr in order] + \
                    [{"k": "router_compile", "r": rid, "version": r.choice([6, 8, 8])}]
+        if cls == "prog_fail_then_ok":
+            # a subroutine using an op of version 7: compileTeal(version=6) fails after its declaration was evaluated, then version 7 succeeds
+            h0, rec0 = self.sub("sub", "uint64", ["val"], [], {"max_vars": 2, "loops": False})
+            h1, rec1 = self.sub("sub", "uint64", ["val", "abi"], [(h0, rec0)], {"max_vars": 2, "loops": False, "abi": True})
+            rec1["body"]["stmts"].append(["pop", ["v7", ["arg", 0]]])
+            body = self.body("app", [], [], "app", {"min_vars": 1, "max_vars": 2, "abi": True, "calls": 0})
+            av = [i for i, d in enumerate([d for d in body["decls"] if d["d"] == "abi" and d.get("t") != "string"]) if d.get("t") == "uint64"]
+            if not av:
+                body["decls"].append({"d": "abi", "t": "uint64"})
+                nv = len([d for d in body["decls"] if d["d"] == "abi" and d.get("t") != "string"]) - 1
+                body["stmts"].insert(0, ["aset", nv, ["int", 0]])
+                av = [nv]
+            body["stmts"].append(["pop", ["call", h1, [["v", ["int", 1]], ["a", av[0]]]]])
+            body["stmts"].append(["pop", ["call", h0, [["v", ["int", 2]]]]])
+            return [{"k": "defsub", "h": h0, "sub": rec0}, {"k": "defsub", "h": h1, "sub": rec1}, {"k": "build", "p": pid, "mode": "app", "body": body},
+                    {"k": "compile", "p": pid, "version": 6, "bad": [h1], "expect_fail": True}, {"k": "compile", "p": pid, "version": 7}]
         if cls == "router_fail_then_ok":
             it = self.router("router_failfirst")
             steps = list(it["steps_def"])
@@ -889,7 +905,7 @@ class Gen:
         raise AssertionError(cls)
 
 
-FAIL_CLASSES = ["router_fail_then_ok", "body_raises_fp", "body_raises_scratch", "body_raises_late_in_body", "abi_body_raises", "bad_return", "body_typeerr",
+FAIL_CLASSES = ["router_fail_then_ok", "prog_fail_then_ok", "body_raises_fp", "body_raises_scratch", "body_raises_late_in_body", "abi_body_raises", "bad_return", "body_typeerr",
                 "build_typeerr", "bad_version", "fp_below_8", "op_above_version_main", "op_above_version_sub", "uninit_load",
                 "dup_reserved", "recursive_byref", "too_many_slots", "deep_seq", "router_method_raises"]
 PROG_FLAVOURS = ["flat", "flat_old", "subs", "recursive", "abi_main", "abi_subs", "storeinto_nested", "tmpl", "probe", "maybe", "nested"]
